@@ -177,6 +177,13 @@ def companion_spec(kind, spec, leaves, rng):
         if spec[0] in ('D', 'DD'):
             return ['D', [['zz%d' % i, leaves[i % len(leaves)]] for i in range(len(top))]]
         return [dict(L='T', T='L')[spec[0]]] + [leaves[i % len(leaves)] for i in range(len(top))]
+    if kind == 'overlapping-keys':       # a dict of the same size sharing some but not all keys (a list: one element shorter): broadcast as a whole
+        if spec[0] in ('D', 'DD') and len(top) >= 2:
+            keys = [k for k, _ in spec[1]]
+            return ['D', [[keys[0], leaves[0]]] + [['zz%d' % i, leaves[i % len(leaves)]] for i in range(1, len(top))]]
+        if spec[0] in ('D', 'DD'):
+            return ['D', [['zz0', leaves[0]]]]
+        return [spec[0]] + [leaves[i % len(leaves)] for i in range(max(len(top) - 1, 0))] if len(top) != 2 else [spec[0]] + [leaves[0], leaves[1], leaves[0]]
     if kind == 'deep-mismatch':          # same shape but one inner container has one more element
         done = [False]
 
@@ -196,7 +203,7 @@ def companion_spec(kind, spec, leaves, rng):
     raise ValueError(kind)
 
 
-KINDS = ['scalar', 'same-shape', 'longer-flat', 'top-only', 'other-kind', 'deep-mismatch', 'inner-match']
+KINDS = ['scalar', 'same-shape', 'longer-flat', 'top-only', 'other-kind', 'deep-mismatch', 'inner-match', 'overlapping-keys']
 
 
 def check_lift(c, fname, spec, comps, offset=0):
@@ -550,7 +557,7 @@ def run(tier, seed):
     quick = tier == 'quick'
     kmax = 4 if quick else 6
     c = Collector('C19', rule='lifting: every structure with <= %d nodes (containers + leaves), nesting <= 4, containers list/tuple/dict, %splus %d seeded structures of depth <= 4 incl. pyg Dict and empty '
-                  'containers; functions: loop(list,tuple,dict) of f(x), f(x,y), f(x,y,z) and lower, upper, strip, proper, replace, split, f12, as_float; companions of 7 kinds (scalar, same shape, '
+                  'containers; functions: loop(list,tuple,dict) of f(x), f(x,y), f(x,y,z) and lower, upper, strip, proper, replace, split, f12, as_float; companions of 8 kinds (scalar, same shape, a dict of the same size sharing some but not all keys, '
                   'longer flat list, matching only at the top, other container kind / other keys, same shape with one inner container longer, unmatched container holding matching containers) '
                   'passed positionally and by keyword; dict first arguments (2-3 keys, children leaves / lists / nested dicts, plain dict or pyg Dict) with dict companions over the '
                   'same key set in EVERY pair of insertion orders, companion values tied to the key, positional and by keyword, through f(x,y), f(x,y,z), replace, split, also one level '
